@@ -41,7 +41,7 @@ EmptyCfg == [budget |-> 0, maxiter |-> 0, ktol |-> 0, ntry |-> 0, nfinal |-> 0,
              accel |-> FALSE, accelsteps |-> 0, completepoll |-> FALSE,
              skippoll |-> FALSE, locked |-> FALSE, gnum |-> 0, gmult |-> 0,
              kcap |-> 0, expand |-> 0, incr |-> 0, stalliters |-> 0, k0 |-> 0,
-             pow2 |-> TRUE, funevalstart |-> 0]
+             pow2 |-> TRUE, funevalstart |-> 0, minrefit |-> 0]
 
 NoStep == [kind |-> "none", nev |-> 0, dirs |-> {}, rem |-> {}, kb |-> 0,
            hasdirs |-> FALSE]
@@ -62,7 +62,7 @@ S0 == [phase |-> "none", D |-> 1, noise |-> "det", hascons |-> FALSE,
        histNow |-> FALSE, np |-> 0, npolls |-> 0,
        hist |-> <<>>, finished |-> FALSE, msg |-> "",
        faulted |-> FALSE, injected |-> "", finalSeen |-> FALSE, nfinalCalls |-> 0,
-       looping |-> FALSE, ended |-> "", strays |-> 0]
+       looping |-> FALSE, ended |-> "", strays |-> 0, uhlInit |-> 0, lastRefitFc |-> -1000000]
 
 Pids == {s.calls[i].pid : i \in DOMAIN s.calls}
 Uids == {s.calls[i].uid : i \in DOMAIN s.calls}
@@ -140,6 +140,11 @@ TEval ==
                        !.evald = TRUE,
                        !.step = st2,
                        !.finalSeen = s.finalSeen \/ Ev.kind = "final",
+                       \* uncertainty level in force when the initial design is drawn
+                       !.uhlInit = IF Ev.kind = "x0"
+                                   THEN (IF s.noise = "specified" THEN 2 ELSE IF s.noise = "declared" THEN 1 ELSE 0)
+                                   ELSE IF Ev.kind = "noisetest" /\ ok /\ s.calls # <<>> /\ Ev.yR # s.calls[1].yR
+                                        THEN 1 ELSE s.uhlInit,
                        !.nfinalCalls = IF Ev.kind = "final" /\ ok THEN s.nfinalCalls + 1
                                        ELSE s.nfinalCalls],
              Chk(inO, "C01.eval_in_box_orig")
@@ -187,7 +192,11 @@ TConsCall ==
 (* candidate filter (contraints_check) -- C17 postconditions                *)
 TFilter ==
   /\ IsEv("Filter")
-  /\ Step(s, Chk(Ev.noob = 0, "C17.out_in_box")
+  /\ Step(s, Chk(Ev.site = "init" =>
+                    (InitRequested(s.uhlInit > 0, s.cfg.funevalstart, s.cfg.budget) >= 1 =>
+                       Ev.nin = SobolDrawn(InitRequested(s.uhlInit > 0, s.cfg.funevalstart, s.cfg.budget), s.D)),
+                 "EXT.init_design_size")
+        \cup Chk(Ev.noob = 0, "C17.out_in_box")
         \cup Chk(Ev.ndup = 0, "C17.out_distinct")
         \cup Chk(Ev.nalready = 0, "C17.out_not_already_evaluated")
         \cup Chk(Ev.ninfeas = 0, "C17.out_feasible")
@@ -437,7 +446,10 @@ TNonProgress ==
 (* ---- GP seams (C15, C16, C18) ------------------------------------------ *)
 TGPTrainSet ==
   /\ IsEv("GPTrainSet")
-  /\ Step(s, Chk(Ev.nunlogged = 0 /\ Ev.nvalmis = 0, "C15.train_is_logged")
+  /\ Step([s EXCEPT !.lastRefitFc = IF Ev.refit THEN s.fc ELSE s.lastRefitFc],
+             Chk(Ev.refit => RefitSpacingOk(s.fc, s.lastRefitFc, 2 * s.D) \/ s.cfg.minrefit # 2 * s.D,
+                 "EXT.refit_spacing")
+        \cup Chk(Ev.nunlogged = 0 /\ Ev.nvalmis = 0, "C15.train_is_logged")
         \cup Chk(Ev.s2ok /\ Ev.s2lenok, "C15.s2_is_variance")
         \cup Chk(Ev.allused, "C15.init_uses_all_logged"))
 
